@@ -44,7 +44,7 @@ typedef struct fcase {
     uint8_t dbos;      /* destbos known */
     uint8_t locale;    /* 0 C, 1 C.utf8 */
     uint8_t dirty;     /* dest prefill class */
-    uint8_t pad_;
+    uint8_t argmode;   /* 1: %s / %ls arguments live in the guard arena: exactly `precision` elements and unterminated when a numeric precision is given, else the terminated string flush against the guard */
     uint32_t seed;
 } fcase_t;
 
@@ -52,6 +52,7 @@ typedef struct fcase {
 typedef struct fres {
     int ret;
     int faulted, fault_write, sig;
+    int fault_dir;            /* argmode: index of the directive whose argument block the fault lies just behind, else -1 */
     int h_count, h_code, h_codes[4];
     size_t dmax;              /* elements given to a buffer sink */
     unsigned char *dest;      /* arena buffer (buffer sinks) */
